@@ -20,6 +20,24 @@ func C01(p *Prog, r *Run) {
 	gf := func(n string) *types.Var { return p.Field(PkgG, "Genome", n) }
 
 	r.Rule("C01.1", "who may write: the gene list, node list, node index and trait list of a genome are written only by the constructors, the readers, the insertion helpers and duplicate", func() {
+		// The two functions that the pinned tree lets assemble a genome through the constructor (the checked
+		// constructor newGenome: C01.2; duplicate: C01.7 / C06.2) may as well carry the constructor's body themselves:
+		// a store that INITIALISES a genome the function has just allocated (`&Genome{…}`: one store per field in the
+		// block of the allocation, the object goes nowhere but to the caller - c06GenomeLits) is the constructor
+		// written in place, not a write to an existing genome. What is stored there is examined by those rules.
+		assemblers := map[*ssa.Function]bool{p.Func(PkgG, "Genome.duplicate"): true}
+		if ng := p.FuncOpt(PkgG, "newGenome"); ng != nil {
+			assemblers[ng] = true
+		}
+		initStores := map[*ssa.Store]bool{}
+		for fn := range assemblers {
+			lits, _ := c06GenomeLits(p, fn)
+			for _, lit := range lits {
+				for _, st := range lit.stores {
+					initStores[st] = true
+				}
+			}
+		}
 		allowed := map[string]map[string]string{
 			"Genes":       {"newGenomeWithNodeIdMap": "constructor", "newGenomeRand": "random constructor", "geneInsert": "ordered insertion", "Read": "readers build the genome they return"},
 			"Nodes":       {"newGenomeWithNodeIdMap": "constructor", "newGenomeRand": "random constructor", "nodeInsert": "ordered insertion", "addNode": "append used by the readers and the random constructor"},
@@ -40,7 +58,7 @@ func C01(p *Prog, r *Run) {
 				}
 				for _, st := range FieldStores(fn, gf(f)) {
 					n++
-					if _, ok := allowed[f][fn.Name()]; !ok {
+					if _, ok := allowed[f][fn.Name()]; !ok && !initStores[st] { // initStores: a genome assembled in place, see above
 						bad = append(bad, FuncName(fn)+" at "+p.Pos(st.Pos()))
 					}
 				}
@@ -116,11 +134,13 @@ func C01(p *Prog, r *Run) {
 		ng := p.Func(PkgG, "newGenome")
 		ntm := NewTermer(ng)
 		okNg, okPass := false, false
+		var indexMap ssa.Value // the map that receives index[node.Id] = node
 		Instrs(ng, func(_ *ssa.BasicBlock, _ int, in ssa.Instruction) {
 			if mu, ok := in.(*ssa.MapUpdate); ok {
 				k, v := ntm.Of(mu.Key), ntm.Of(mu.Value)
 				if v.Op == "elem" && isParamIdx(v.Args[0], 2) && k.Op == "field" && k.Name == "Id" && k.Args[0].String() == v.String() {
 					okNg = true
+					indexMap = stripPtr(mu.Map)
 					// on every iteration: the update dominates every back edge of its loop
 					if l := InnermostLoop(Loops(ng), mu.Block()); l != nil {
 						for _, lb := range l.Latch {
@@ -134,10 +154,33 @@ func C01(p *Prog, r *Run) {
 				}
 			}
 		})
-		for _, c := range CallsTo(ng, p.Func(PkgG, "newGenomeWithNodeIdMap")) {
-			a := callArgTerms(ntm, c.Common())
-			okPass = isParamIdx(a[2], 2) && a[5].Op == "make"
+		// the genome newGenome returns stores that node list and that index: handed to the field-wise constructor,
+		// or stored into the genome newGenome allocates itself (the constructor written in place)
+		assembled := map[ssa.Value]bool{}
+		sitesOK := true
+		if ctor := p.FuncOpt(PkgG, "newGenomeWithNodeIdMap"); ctor != nil {
+			for _, c := range CallsTo(ng, ctor) {
+				a := callArgTerms(ntm, c.Common())
+				if !(isParamIdx(a[2], 2) && a[5].Op == "make") {
+					sitesOK = false
+				}
+				if c.Value() != nil {
+					assembled[c.Value()] = true
+				}
+			}
 		}
+		lits, otherLits := c06GenomeLits(p, ng)
+		for _, lit := range lits {
+			nodes, idx := lit.vals[gf("Nodes")], lit.vals[gf("nodeByIdMap")]
+			_, isMake := indexMap.(*ssa.MakeMap)
+			if !(nodes != nil && idx != nil && isParamIdx(ntm.Of(nodes), 2) && isMake && stripPtr(idx) == indexMap) {
+				sitesOK = false
+			}
+			assembled[lit.alloc] = true
+		}
+		// every genome newGenome returns is one of those
+		outside, _ := c06ReturnedOutside(ng, 0, assembled)
+		okPass = len(assembled) > 0 && sitesOK && len(outside) == 0 && len(otherLits) == 0
 		okLoop := false
 		for _, l := range Loops(ng) {
 			if loopRangesOver(ntm, l, "p2") {
